@@ -20,6 +20,7 @@ import (
 	"github.com/invopop/gobl/internal/cli"
 	"github.com/invopop/gobl/num"
 	"github.com/invopop/gobl/org"
+	"github.com/invopop/gobl/schema"
 	"github.com/invopop/gobl/uuid"
 	"github.com/invopop/gobl/verifharness/internal/corpus"
 	"github.com/invopop/gobl/verifharness/internal/goblexec"
@@ -57,7 +58,7 @@ type Case struct {
 	// take text: "" as json.Marshal writes it, "escaped" every string and member
 	// name as \uXXXX escapes (surrogate pairs above the basic plane, which is
 	// how ASCII-only encoders write them), "spaced" with blanks and line breaks
-	// between all tokens. With a form the header notes hold characters outside
+	// between all tokens, "raw" compact with nothing escaped that need not be. With a form the header notes hold characters outside
 	// the basic plane before the history starts.
 	Text string `json:"text,omitempty"`
 }
@@ -78,8 +79,21 @@ func rewrite(data []byte, form string) ([]byte, error) {
 	}
 	str := func(v string) {
 		if form != "escaped" {
-			out, _ := json.Marshal(v)
-			sb.Write(out)
+			// minimal escaping: everything above the controls is written as it is
+			// (encoding/json would escape U+2028 and U+2029)
+			sb.WriteByte('"')
+			for _, r := range v {
+				switch {
+				case r == '"' || r == '\\':
+					sb.WriteByte('\\')
+					sb.WriteRune(r)
+				case r < 0x20:
+					fmt.Fprintf(&sb, `\u%04x`, r)
+				default:
+					sb.WriteRune(r)
+				}
+			}
+			sb.WriteByte('"')
 			return
 		}
 		sb.WriteByte('"')
@@ -269,10 +283,13 @@ func judge(c Case, o *vh.Obs) {
 	}
 	if c.Text != "" {
 		o.Class("text-" + c.Text)
-		env.Head.Notes = "Smile \U0001F600 \U0001D11E " + env.Head.Notes
+		// characters outside the basic plane, and the three that YAML (not JSON)
+		// reads as line breaks
+		env.Head.Notes = "Smile \U0001F600 \U0001D11E next\u0085line\u2028sep\u2029par " + env.Head.Notes
 	}
 	var sigs []signedHeader
 	tamperedAfterSign, recalculated, headerBroken := false, false, false
+	digestStale := false // the document was edited and not calculated again since
 	for _, a := range c.Actions {
 		o.Class("act-" + a.Kind)
 		switch a.Kind {
@@ -334,6 +351,10 @@ func judge(c Case, o *vh.Obs) {
 			}
 		case "set-notes":
 			env.Head.Notes = a.Val
+		case "alter-schema":
+			// the envelope's own schema identifier is not covered by the signature
+			// and decides nothing: every check stays as it is
+			env.Schema = schema.ID("https://gobl.org/draft-" + a.Val + "/envelope")
 		case "alter-uuid":
 			env.Head.UUID = uuid.MustParse("0190f3a1-7c2b-7000-8000-0000000000" + a.Val)
 		case "alter-digest":
@@ -368,12 +389,14 @@ func judge(c Case, o *vh.Obs) {
 			if len(sigs) > 0 {
 				tamperedAfterSign = true
 			}
+			digestStale = true
 			if a.Kind == "edit-doc-recalc" {
 				if err := env.Calculate(); err != nil {
 					o.Class("recalc-error")
 					o.Discard()
 					return
 				}
+				digestStale = false
 				if len(sigs) > 0 {
 					recalculated = true
 				}
@@ -415,6 +438,14 @@ func judge(c Case, o *vh.Obs) {
 			headerBroken = true
 			why = fmt.Sprintf("signed %s no longer contained in the header", field)
 			o.Class("broken-" + field)
+		}
+	}
+	// without keys only the contents are compared: every signed header must
+	// still be contained, whoever signed
+	expectNoKey := len(sigs) > 0
+	for _, s := range sigs {
+		if ok, _ := contains(cur, s.head); !ok {
+			expectNoKey = false
 		}
 	}
 	if len(env.Signatures) != len(sigs) {
@@ -464,6 +495,18 @@ func judge(c Case, o *vh.Obs) {
 			return
 		}
 	}
+	// (1a) no keys presented: the contents alone decide
+	if got := env.Verify() == nil; got != expectNoKey {
+		o.Failf(verdictSig("library-keyless", got), "Envelope.Verify() without keys = %v, expected %v after %s", got, expectNoKey, describe(c))
+		return
+	}
+	for i, sg := range env.Signatures {
+		e, _ := contains(cur, sigs[i].head)
+		if g := env.VerifySignature(sg) == nil; g != e {
+			o.Failf(verdictSig("library-single-keyless", g), "VerifySignature(#%d) without keys = %v, expected %v after %s", i, g, e, describe(c))
+			return
+		}
+	}
 	// (1b) a different key pair that merely carries the signer's key id must be
 	// refused by the same in-memory envelope that has just verified with the real key
 	if expectLib && c.PresentForm == "" {
@@ -495,7 +538,12 @@ func judge(c Case, o *vh.Obs) {
 	}
 	// (2) command-line paths additionally require the envelope to validate
 	valid := env.Validate() == nil
-	expectCLI := expectLib && valid
+	if digestStale {
+		// edited without recalculation: whatever Validate says, the text entry
+		// points must not report success for this document
+		o.Class("stale-digest")
+	}
+	expectCLI := expectLib && valid && !digestStale
 	if !valid {
 		o.Class("envelope-invalid")
 	}
@@ -636,7 +684,7 @@ var metaKeys = []string{"m1", "m2"}
 func genAction(t *rapid.T, label string, phase string) Action {
 	pre := []string{"add-link", "add-tag", "set-meta", "set-notes", "add-tag", "set-meta"}
 	post := []string{"add-stamp", "add-link", "add-tag", "set-meta", "set-notes", "alter-uuid", "alter-digest", "remove-tag", "remove-stamp", "remove-link", "retitle-link", "retitle-link", "remove-meta", "set-meta", "extend-notes", "extend-notes",
-		"edit-doc", "edit-doc-recalc", "edit-doc-recalc", "reparse", "sign", "unsign", "add-stamp", "add-link", "set-meta"}
+		"edit-doc", "edit-doc-recalc", "edit-doc-recalc", "reparse", "sign", "unsign", "add-stamp", "add-link", "set-meta", "alter-schema", "alter-schema"}
 	kinds := pre
 	if phase == "post" {
 		kinds = post
@@ -655,6 +703,8 @@ func genAction(t *rapid.T, label string, phase string) Action {
 	case "retitle-link":
 		a.Arg = rapid.SampledFrom([]string{"title", "description", "mime"}).Draw(t, label+"_what")
 		a.Val = rapid.SampledFrom([]string{"T1", "html", ""}).Draw(t, label+"_rv")
+	case "alter-schema":
+		a.Val = rapid.SampledFrom([]string{"1", "0.9", "x"}).Draw(t, label+"_sv")
 	case "remove-meta":
 		a.Arg = rapid.SampledFrom(metaKeys).Draw(t, label+"_mk")
 	case "add-tag":
@@ -700,7 +750,7 @@ func genCase(t *rapid.T) Case {
 	if rapid.IntRange(0, 4).Draw(t, "keyform") == 0 {
 		c.PresentForm = "no-kid"
 	}
-	c.Text = rapid.SampledFrom([]string{"", "", "", "escaped", "spaced"}).Draw(t, "text")
+	c.Text = rapid.SampledFrom([]string{"", "", "", "escaped", "spaced", "raw"}).Draw(t, "text")
 	return c
 }
 
@@ -719,11 +769,14 @@ func enumTamper(yield func(Case) bool) {
 				{Doc: d.Path, Actions: []Action{{Kind: "sign", Key: 0}}, Present: 1, Exec: exec},
 				{Doc: d.Path, Actions: []Action{{Kind: "sign", Key: 0}}, Present: 0, Exec: exec, Text: "escaped"},
 				{Doc: d.Path, Actions: []Action{{Kind: "sign", Key: 0}}, Present: 0, Exec: exec, Text: "spaced"},
+				{Doc: d.Path, Actions: []Action{{Kind: "sign", Key: 0}}, Present: 0, Exec: exec, Text: "raw"},
 				{Doc: d.Path, Actions: []Action{{Kind: "sign", Key: 0}, {Kind: "edit-doc-recalc", Arg: what, Val: "1"}}, Present: 0, Exec: exec, Text: "escaped"},
 				{Doc: d.Path, Actions: []Action{{Kind: "sign", Key: 0}}, Present: 1, PresentForm: "no-kid", Exec: exec},
 				{Doc: d.Path, Actions: []Action{{Kind: "sign", Key: 0}}, Present: 0, PresentForm: "no-kid", Exec: exec},
 				{Doc: d.Path, Actions: []Action{{Kind: "sign", Key: 0}, {Kind: "edit-doc-recalc", Arg: what, Val: "1"}}, Present: 0, Exec: exec},
 				{Doc: d.Path, Actions: []Action{{Kind: "sign", Key: 0}, {Kind: "edit-doc", Arg: what, Val: "1"}}, Present: 0, Exec: exec},
+				{Doc: d.Path, Actions: []Action{{Kind: "sign", Key: 0}, {Kind: "edit-doc", Arg: what, Val: "1"}, {Kind: "alter-schema", Val: "1"}}, Present: 0, Exec: exec},
+				{Doc: d.Path, Actions: []Action{{Kind: "sign", Key: 0}, {Kind: "alter-schema", Val: "1"}}, Present: 0, Exec: exec},
 				{Doc: d.Path, Actions: []Action{{Kind: "sign", Key: 0}, {Kind: "edit-doc-recalc", Arg: what, Val: "1"}, {Kind: "reparse"}}, Present: 0, Exec: exec},
 				{Doc: d.Path, Actions: []Action{{Kind: "sign", Key: 0}, {Kind: "add-stamp", Arg: "prov-a", Val: "v1"}, {Kind: "add-link", Arg: "pdf", Val: "a"}, {Kind: "add-tag", Arg: "t1"}, {Kind: "set-meta", Arg: "m1", Val: "x"}}, Present: 0, Exec: exec},
 				{Doc: d.Path, Actions: []Action{{Kind: "sign", Key: 0}, {Kind: "add-stamp", Arg: "prov-a", Val: "v1"}, {Kind: "sign", Key: 0}, {Kind: "add-stamp", Arg: "prov-a", Val: "v2"}}, Present: 0, Exec: exec},
@@ -740,7 +793,7 @@ func enumTamper(yield func(Case) bool) {
 func init() {
 	vh.OnExit(goblexec.Stop)
 	vh.Describe(
-		"Histories over every signable example invoice: 0-3 header decorations (links, tags, meta, notes), a signature by one of three keys, then 0-5 post-signing steps drawn from: add stamp / link (with or without title and MIME type) / tag (also the blank tag) / meta (also the empty value) / notes, change the title, description or MIME type of a link, remove a meta entry, extend the notes before or after their text, alter uuid / digest, remove a tag / stamp / link, edit the document with and without recalculation, serialise+parse, sign again (any key), unsign; finally verification with the signer's key (75%) or another (a fifth of the time written as a JWK without the optional key id), through Envelope.Verify, VerifySignature, cli.Verify (for two fifths of the cases the serialised envelope is rewritten with every string and member name as \\u escapes - surrogate pairs for the characters outside the basic plane put into the notes beforehand - or with blanks and line breaks between all tokens, and the library also verifies what it reads from that text), the bulk verify action (in process) and - for a tenth of the cases and the enumerated tamper scenarios - the `gobl verify -k` executable, POST /verify and POST /bulk of a running `gobl serve`. Model: the header JSON recorded at each signing; expected = signed AND every signature made with the presented key AND the current header still contains each signed header (uuid, dig, stamps, links, tags, meta, notes); command-line paths additionally need the envelope to validate. Every path must return exactly the expected verdict; after an accepted verification a different key pair carrying the signer's key id must be refused by the same in-memory envelope. Non-trivial: the history ends signed.",
+		"Histories over every signable example invoice: 0-3 header decorations (links, tags, meta, notes), a signature by one of three keys, then 0-5 post-signing steps drawn from: add stamp / link (with or without title and MIME type) / tag (also the blank tag) / meta (also the empty value) / notes, change the title, description or MIME type of a link, remove a meta entry, extend the notes before or after their text, alter uuid / digest / the envelope's own schema identifier (which decides nothing), remove a tag / stamp / link, edit the document with and without recalculation, serialise+parse, sign again (any key), unsign; finally verification with the signer's key (75%) or another (a fifth of the time written as a JWK without the optional key id), through Envelope.Verify and VerifySignature with the key and without any (then the contents alone decide), cli.Verify (for two fifths of the cases the serialised envelope is rewritten with every string and member name as \\u escapes - surrogate pairs for the characters outside the basic plane put into the notes beforehand - with blanks and line breaks between all tokens, or compact with nothing escaped that need not be - the notes then also hold U+0085, U+2028 and U+2029, which YAML but not JSON reads as line breaks -, and the library also verifies what it reads from that text), the bulk verify action (in process) and - for a tenth of the cases and the enumerated tamper scenarios - the `gobl verify -k` executable, POST /verify and POST /bulk of a running `gobl serve`. Model: the header JSON recorded at each signing; expected = signed AND every signature made with the presented key AND the current header still contains each signed header (uuid, dig, stamps, links, tags, meta, notes); command-line paths additionally need the envelope to validate, and never accept a document edited without recalculation (the model tracks that itself, it does not ask Validate). Every path must return exactly the expected verdict; after an accepted verification a different key pair carrying the signer's key id must be refused by the same in-memory envelope. Non-trivial: the history ends signed.",
 		"signatures are random (ECDSA); only verdicts are compared",
 		"whether the envelope validates is taken from Envelope.Validate (its rules are property C10)",
 	)
